@@ -237,7 +237,7 @@ func cmdCheck(args []string) int {
 	}
 	scratch, _ := os.MkdirTemp(scratchBase(), "govc")
 	defer os.RemoveAll(scratch)
-	opts := solveOpts{timeoutS: 10, seed: seed, scratch: scratch, workers: 14}
+	opts := solveOpts{timeoutS: 20, seed: seed, scratch: scratch, workers: 16}
 	if *tier == "thorough" {
 		opts.timeoutS = 60
 		opts.allThree = true
